@@ -10,7 +10,7 @@
    / gen_get_hash (EventLoopThreadPool.cc, symbolically executed). *)
 From Coq Require Import List Bool Arith Lia.
 Import ListNotations.
-From Muduo Require Import C04_Model C04_Proofs C05_Model C05_Proofs C05_PoolProofs C05_EltProofs Gen_C04 Gen_C05 C05_GenLink.
+From Muduo Require Import C04_Model C04_Proofs C05_Model C05_Proofs C05_PoolProofs C05_EltProofs Gen_C04 Gen_C05 C05_GenRun C05_GenLink.
 
 (* ------------------------------------------------------------ the tie to the source (Gen = Model) *)
 (* EventLoop::quit() wakes the loop when called from another thread *)
